@@ -85,6 +85,8 @@ def observe(m):
     o["levels"] = {k: _tolist(v) for k, v in m.get_steady_levels(unpack_singleton=False).items()}
     o["changes"] = {k: _tolist(v) for k, v in m.get_steady_changes(unpack_singleton=False).items()}
     o["equations"] = list(m.get_equations())
+    o["description"] = str(m.get_description())
+    o["tolerance"] = {k: float(v) for k, v in dict(m.get_tolerance()).items()}
     o["logly"] = dict(m.get_log_status())
     fl = m.get_flags()
     o["flags"] = [bool(fl.is_linear), bool(fl.is_flat), bool(fl.is_deterministic)]
@@ -178,6 +180,12 @@ def _apply(m, op):
                 m.alter_num_variants(op["n"])
             elif kind == "rescale":
                 m.rescale_stds(op["factor"])
+            elif kind == "set_description":
+                m.set_description(op["text"])
+            elif kind == "override_tolerance":
+                m.override_tolerance(eigenvalue=op["eigenvalue"])
+            elif kind == "reset_tolerance":
+                m.reset_tolerance()
         return True
     except Exception:
         return False
@@ -453,7 +461,19 @@ def run_sequential(c, case):
     def fp(mm):
         with rt.quiet():
             out = mm.simulate(db, span)
-        return {n: np.asarray(out[n].get_data(tuple(span)), dtype=float).tolist() for n in case["lhs"]}
+        res = {n: np.asarray(out[n].get_data(tuple(span)), dtype=float).tolist() for n in case["lhs"]}
+        # the same with a plan that exogenizes the first left-hand variable in two periods: the backed-out residuals go
+        # through the residual function of the equation, which a plain simulation never calls
+        try:
+            with rt.quiet():
+                plan = ir.SimulationPlan(mm, span)
+                plan.exogenize((start + 1, start + 3), case["lhs"][0])
+                out2 = mm.simulate(db, span, plan=plan)
+            res["planned"] = {n: np.asarray(out2[n].get_data(tuple(span)), dtype=float).tolist()
+                              for n in list(case["lhs"]) + ["res_" + case["lhs"][0]] if n in out2}
+        except Exception as exc:
+            res["planned"] = f"raised:{type(exc).__name__}"
+        return res
     try:
         base = fp(m)
     except Exception as exc:
@@ -603,10 +623,15 @@ def make_case(rng):
             ops.append({"op": "solve_steady", "target": t})
         elif u < 0.8:
             ops.append({"op": "solve", "target": t})
-        elif u < 0.9:
+        elif u < 0.88:
             ops.append({"op": "alter", "n": int(rng.integers(1, 4)), "target": t})
-        else:
+        elif u < 0.94:
             ops.append({"op": "rescale", "factor": float(np.round(rng.uniform(0.5, 2.0), 2)), "target": t})
+        else:
+            # mutators of the part of a model that all its variants share (description, tolerances): a copy has its own
+            ops.append([{"op": "set_description", "text": f"model #{int(rng.integers(0, 1000))}", "target": t},
+                        {"op": "override_tolerance", "eigenvalue": float(rng.choice([1e-10, 1e-8, 1e-6])), "target": t},
+                        {"op": "reset_tolerance", "target": t}][int(rng.integers(0, 3))])
     # per-variant assignment after an expansion makes variants differ
     if rng.random() < 0.5 and tunable:
         k = tunable[0]
